@@ -3,6 +3,7 @@
 (no check may raise an alarm on them).  The brief names packages only - nothing from /verif."""
 import sys
 area, wt, out = sys.argv[1:4]
+rnd = sys.argv[4] if len(sys.argv) > 4 else "r3"
 AREAS = {
  "morass":     ("morass", "the external sorter (package morass): New, Push, write, Finalise, Pull, Clear, CleanUp, in both modes"),
  "concurrent": ("concurrent", "package concurrent: Processor, Map, PromiseMap, Promise"),
@@ -13,6 +14,12 @@ AREAS = {
  "misc":       ("alphabet seq/quality index/kmerindex feat/gene", "alphabets and quality encodings, the k-mer index, gene/transcript/exon features"),
 }
 pk, what = AREAS[area]
+KINDS = {"r3": """  (1) A SIZE-DEPENDENT FAST PATH: process data in blocks (64, 256 or 1024 elements) with a correct remainder loop, or add a small-size / large-size special case, or split work for large inputs over a few goroutines with correct synchronisation (WaitGroup.Add before `go`, no captured loop variable) - results identical for every size, including exactly at and around the block size.
+  (2) KEPT INTERNAL STATE, CORRECTLY RESET: a scratch buffer kept on the object, a sync.Pool of tables/buffers, a table built lazily under sync.Once, a cache keyed correctly - reset / invalidated on EVERY path including error returns and early returns, never shared between objects in a way a caller could observe, never aliasing memory handed to or received from the caller.
+  (3) REORDERED OR REGROUPED STEPS: split a function, merge two passes into one, hoist or sink a statement, replace a defer by explicit calls on every path, change which goroutine does a step while keeping every happens-before relation the callers rely on - without changing any result, error, or externally visible side effect.""",
+ "r4": """  (1) SHARED STATE MADE SAFE: state shared by all objects of a type - a package-level table built lazily under sync.Once, a mutex-guarded free list or a sync.Pool of scratch buffers, a read-mostly cache under sync.RWMutex - introduced so that two goroutines working on UNRELATED objects stay free of data races and every object still sees exactly what it saw before (buffers reset on every path, nothing handed out twice, no result aliasing shared storage).
+  (2) A CUT-OFF AT AN ORDINARY NUMBER, DONE RIGHT: a small-input special case, a chunk size or a pre-sized buffer keyed on a constant such as 12, 20, 96, 120, 300 or 1200, with the behaviour exactly as before at the constant, one below and one above it, and for multiples of it.
+  (3) AN ARITHMETIC REWRITE, DONE RIGHT: an expression restructured for speed or clarity (overflow-safe midpoint, a division hoisted out of a loop, a modulo replaced by a conditional subtraction, a table lookup instead of a computation) that keeps the result for every magnitude and sign, including negative coordinates, values beyond 32 bits and the extremes of the type."""}[rnd]
 print(f"""You are helping to evaluate a verification harness for the Go library biogo (github.com/biogo/biogo).  Your job here is to write CORRECT refactorings: changes that restructure code and keep the observable behaviour exactly as it is.  The harness must stay silent on them.  You work ONLY in your own scratch git worktree: {wt} (never touch /repo or /verif, do not read /verif).
 
 Environment (no network): before every go command run
@@ -22,9 +29,7 @@ Test suite:  cd {wt} && go build ./... && go test -vet=off -count=1 ./...
 Area: {what}  (directories: {pk})
 
 Write THREE independent behaviour-preserving changes, one of each kind, each of the sort a maintainer does for speed or tidiness and each getting the tricky part RIGHT:
-  (1) A SIZE-DEPENDENT FAST PATH: process data in blocks (64, 256 or 1024 elements) with a correct remainder loop, or add a small-size / large-size special case, or split work for large inputs over a few goroutines with correct synchronisation (WaitGroup.Add before `go`, no captured loop variable) - results identical for every size, including exactly at and around the block size.
-  (2) KEPT INTERNAL STATE, CORRECTLY RESET: a scratch buffer kept on the object, a sync.Pool of tables/buffers, a table built lazily under sync.Once, a cache keyed correctly - reset / invalidated on EVERY path including error returns and early returns, never shared between objects in a way a caller could observe, never aliasing memory handed to or received from the caller.
-  (3) REORDERED OR REGROUPED STEPS: split a function, merge two passes into one, hoist or sink a statement, replace a defer by explicit calls on every path, change which goroutine does a step while keeping every happens-before relation the callers rely on - without changing any result, error, or externally visible side effect.
+{KINDS}
 Requirements: exported API and behaviour unchanged for ALL inputs and call orders (also after errors, also under concurrency where the package is concurrent); `go build ./...` and the whole test suite pass; `go vet` clean for the touched package; 10-60 changed lines each; run the package's tests with -race as well.  Additionally write for each change a small differential test (build tag `benigndemo`) that compares old and new behaviour over a few hundred generated inputs INCLUDING sizes around your block / threshold constants and error cases, run it on both trees (it must pass on both; on the clean tree it records a golden file, on the changed tree it compares with it).
 For each change k = 1,2,3 produce in {out}/{{k}}/ :  patch.diff (git diff against the clean worktree, applies with git apply),  notes.md (what was restructured, why behaviour is preserved, what you ran).
 Working style: keep every reply and every tool call SHORT (never more than ~150 lines in one tool call; pipe long outputs through tail -20).  Leave the worktree clean at the end.  Finish with a three-line summary.""")
